@@ -20,13 +20,13 @@ CHECKS = {
  "C05": ("model_checking", "unbounded / deviation-bounded DFS of the real flow-control core at atomic-operation granularity + frame-level DFS of whole tunnels with a credit-conservation invariant at idle states",
          "Core: all interleavings (small configurations) or all with <= 3/4 deviations of send vs. window updates vs. cancel and accept vs. dequeue vs. close/cancel on the real defaultSender/defaultReceiver. Tunnel: 1-3 streams x 2-3 windows x capacities {1,2,unbounded} with the invariant sender window == peer receiver window at every idle quiescent point.", "3.C05"),
  "C06": ("model_checking", "wire monitor of the window invariants on every frame of every execution + enumerated overrunning raw peers (both roles)",
-         "Overrun by {1, 16384, 196608} bytes x {envelope, continuation, new message} x {0,1,4} frames consumed, both roles, all schedules with <= 1/2 deviations; plus the C05 tunnel and C01 multi-RPC workloads re-run with only the window and protocol monitors.", "3.C06"),
+         "Overrun by {1, 16384, 196608} bytes x {envelope, continuation, new message} x {0,1,4} frames consumed, both roles, all schedules with <= 1/2 deviations; plus the same overruns arriving while the receiving application is parked in a window-limited SendMsg; plus the C05 tunnel and C01 multi-RPC workloads re-run with only the window and protocol monitors; every execution's heap allocation bounded (32 MiB).", "3.C06"),
  "C07": ("fault_enumeration", "cancel / deadline at every quiescent point of an RPC x orderings of the racing frames; exactly-one-legal-outcome oracle",
          "Every point of every shape x handler variant x direction x flow control; thorough adds one further deviation which orders the cancel frame against the peer's close/data/window frames.", "3.C07"),
  "C08": ("model_checking", "deviation-bounded DFS of concurrent stream creation at lock granularity + exhaustive raw-peer id histories against a reference automaton",
          "2-3 goroutines starting RPCs with every lock/atomic/channel operation of creation, id allocation and the send wrappers as a scheduling point; every id history of length <= 3 (quick) / 4 (thorough) over 20 frames.", "3.C08"),
  "C09": ("model_checking", "bounded-exhaustive frame histories in both roles against a protocol reference classifier",
-         "Every history of length <= 3 over a 26-frame client alphabet (thorough: + every length-4 history that opens a stream first) against the real server, and of length <= 3 over a 22-frame server alphabet against the real client; panic capture, exact hang detection, leak and window-bound oracles.", "3.C09"),
+         "Every history of length <= 3 over a 26-frame client alphabet (thorough: + every length-4 history that opens a stream first) against the real server, and of length <= 3 over a 22-frame server alphabet against the real client; plus histories whose envelope announces 1 MiB .. 4 GiB but carries little (all four roles); panic capture, exact hang detection, leak, window-bound and per-execution allocation-bound (32 MiB) oracles.", "3.C09"),
  "C10": ("model_checking", "graceful shutdown at every quiescent point x in-flight workloads x later RPCs; differential oracle (in-flight RPCs end as without shutdown)",
          "Shutdown alone at every point (quick) plus one further deviation (thorough) over 7 in-flight sets x 1-2 later RPCs x forward/reverse x flow control; Stop ordering checked on the virtual step clock.", "3.C10"),
  "C11": ("exploration", "full configuration matrix + enumerated settings messages against a reference negotiation function, wire facts from the tap",
@@ -37,8 +37,8 @@ CHECKS = {
          "Union of the scenario families of C01, C02, C04, C07, C10, C16 each at its own bound, plus dedicated finishStream races with <= 2/3 deviations.", "3.C13"),
  "C14": ("model_checking", "table / goroutine oracle (white-box dump by reflection, thread census, bubble drain) after every execution and at idle quiescent points of the termination-heavy union set",
          "Union of C04, C07, C10, C03, C01-termination, C09, C16 scenario families each at its own bound.", "3.C14"),
- "C15": ("model_checking", "deviation-bounded DFS of concurrent API programs with EVERY synchronisation operation of the library as a scheduling point; no panic / deadlock / atomicity violation",
-         "Decides panics, deadlocks and atomicity (message and metadata oracles) for all schedules with <= 1 (quick) / 2 (thorough) deviations. The literal Go-memory-model data-race clause is not decidable by this technique with the installed tools and is not claimed (DESIGN.md 3.C15).", "3.C15"),
+ "C15": ("model_checking", "deviation-bounded DFS of concurrent API programs with EVERY synchronisation operation of the library as a scheduling point; no panic / deadlock / atomicity violation; plus a separate free-running Go-race-detector pass (sampling, not enumeration) for the data-race clause",
+         "Decided by enumeration: panics, deadlocks and atomicity (message and metadata oracles) for all schedules with <= 1 (quick) / 2 (thorough) deviations of 8 concurrent programs. The literal data-race clause cannot be decided by enumeration under a cooperative scheduler (its hand-offs are happens-before edges) and is covered by a separate free-running pass of 20 program/mode combinations against the plain library over real grpc-go under the race detector (20 s quick / 240 s thorough): a report is a proof of a race and fails the check; silence of that pass is sampling evidence only (evidence: coverage.race_pass).", "3.C15"),
  "C16": ("exploration", "enumerated raw-peer request/response frame sequences for the 4 call shapes + application send sequences",
          "All sequences with 0..3 messages x whole/split x half-close position (both roles) and 1..3 application sends, each with <= 1 (quick) / 2 (thorough) schedule deviations.", "3.C16"),
  "C17": ("exploration", "configuration matrix (mode x opening metadata) with concurrent mutators of every accessor result; multi-tunnel channel identity",
